@@ -11,7 +11,7 @@ import common
 from plain import gen_plain_case, run_plain_history, shrink_history
 
 RULE = ("random plain histories (single-node expansion, bfs, dfs, minimal-space, target, attractor-seed, "
-        "block without source shortcuts, node_successors) with limits in [0,size+2] over G-expr/G-tt/G-compose "
+        "block without source shortcuts (modelled), node_successors; 15% declared variable order + pickle; 12% identity-inside-trap networks) with limits in [0,size+2] over G-expr/G-tt/G-compose "
         "networks (n<=6 quick, <=7 thorough); non-trivial = at least two operations changed the diagram and some "
         "intermediate state had both expanded and unexpanded nodes; distinct by (network, history) hash")
 ASSUMPTIONS = [
